@@ -37,6 +37,8 @@ type FundRec struct {
 	Name   string `json:"name"`
 	Addr   string `json:"addr"`
 	Amount string `json:"amount"`
+	// the address is only observed: no account is created for it before the history starts
+	NoAccount bool `json:"no_account,omitempty"`
 }
 
 type HistorySetup struct {
@@ -53,6 +55,7 @@ type HistorySetup struct {
 	HostileHashes bool      `json:"structured_tx_hashes,omitempty"`
 	BigFunds      []FundRec `json:"big_funds,omitempty"` // amounts beyond int64, funded before the first snapshot
 	StartTimeNs   int64     `json:"start_time_unix_ns,omitempty"`
+	Commit        bool      `json:"commit_mode,omitempty"` // own chain; BeginBlock / EndBlock / Commit of the application around every block
 }
 
 type History struct {
@@ -193,23 +196,35 @@ func NewRun(a *App, name string, seed int64, params types.Params, mon *Mon) *Run
 }
 
 func NewRunAt(a *App, name string, seed int64, params types.Params, mon *Mon, start int64) *Run {
+	// a.nextCommit: the caller asked for the next history of this worker to run in commit mode
+	commit := a.nextCommit
+	a.nextCommit = false
+	return NewRunOpt(a, name, seed, params, mon, start, commit)
+}
+
+// NewRunOpt: with commit the history gets a chain of its own (first block = start) and goes
+// through the application's BeginBlock / EndBlock / Commit; a is not used then.
+func NewRunOpt(a *App, name string, seed int64, params types.Params, mon *Mon, start int64, commit bool) *Run {
+	if commit {
+		a = NewAppAt(start)
+	}
 	a.startAt = start
 	w := a.NewWorld(params)
 	pb, err := params.Marshal()
 	must(err)
 	r := &Run{w: w, mon: mon, rng: rand.New(rand.NewSource(seed)), maxSteps: 100000,
-		hist: &History{Name: name, Seed: seed, Setup: HistorySetup{ParamsB64: base64.StdEncoding.EncodeToString(pb), ParamsDesc: paramsDesc(params), StartHeight: start}}}
+		hist: &History{Name: name, Seed: seed, Setup: HistorySetup{ParamsB64: base64.StdEncoding.EncodeToString(pb), ParamsDesc: paramsDesc(params), StartHeight: start, Commit: commit}}}
 	return r
 }
 
 func (r *Run) Fund(name string, addr sdk.AccAddress, amt int64) {
 	r.w.Fund(name, addr, sdk.NewInt(amt))
-	r.hist.Setup.Funds = append(r.hist.Setup.Funds, FundRec{name, hexs(addr), fmt.Sprint(amt)})
+	r.hist.Setup.Funds = append(r.hist.Setup.Funds, FundRec{Name: name, Addr: hexs(addr), Amount: fmt.Sprint(amt)})
 }
 
 func (r *Run) TrackOnly(name string, addr sdk.AccAddress) {
 	r.w.Track(name, addr)
-	r.hist.Setup.Funds = append(r.hist.Setup.Funds, FundRec{name, hexs(addr), "0"})
+	r.hist.Setup.Funds = append(r.hist.Setup.Funds, FundRec{Name: name, Addr: hexs(addr), Amount: "0", NoAccount: true})
 }
 
 func (r *Run) InstallModuleService(pricing string) { r.InstallModuleServiceQoS(pricing, 1) }
@@ -260,6 +275,7 @@ func (r *Run) SetStateCbKill(v bool) {
 
 // Begin takes the initial snapshot; call after funding.
 func (r *Run) Begin() {
+	r.w.BeginFirstBlock()
 	r.pre = r.w.TakeSnap()
 	r.mon.begin(r)
 }
@@ -271,6 +287,14 @@ func (r *Run) after(st Step, msg sdk.Msg, res StepResult) {
 	r.mon.check(sc)
 	r.pre = post
 	r.digests = append(r.digests, post.Digest)
+	if r.w.commit && st.Kind == "block" {
+		// between two blocks, outside the monitors' brackets: Commit, then the next block's
+		// BeginBlock (other modules mint and distribute there), then a fresh "pre" snapshot
+		hash := r.w.CommitAndBegin()
+		r.digests[len(r.digests)-1] += ":" + hash
+		r.pre = r.w.TakeSnap()
+		r.mon.stats.Hits["C20/app-hash-formed"]++
+	}
 	r.lastRes = res
 	if len(r.hist.Steps) >= r.maxSteps {
 		r.stop = true
@@ -401,14 +425,14 @@ func Replay(a *App, h *History, mon *Mon) *Run {
 	if start == 0 {
 		start = startHeight
 	}
-	r := NewRunAt(a, h.Name, h.Seed, params, mon, start)
+	r := NewRunOpt(a, h.Name, h.Seed, params, mon, start, h.Setup.Commit)
 	for _, f := range h.Setup.Funds {
 		var amt int64
 		fmt.Sscan(f.Amount, &amt)
-		if amt > 0 {
-			r.Fund(f.Name, unhex(f.Addr), amt)
-		} else {
+		if f.NoAccount {
 			r.TrackOnly(f.Name, unhex(f.Addr))
+		} else {
+			r.Fund(f.Name, unhex(f.Addr), amt)
 		}
 	}
 	for _, f := range h.Setup.BigFunds {
